@@ -39,7 +39,7 @@ class C20(P.Property):
     assumptions = ["iteration order is compared exactly for PickledDict (a dict, pickled) and as sorted lists for DBMDict (dbm promises none)",
                    "DBMDict is never opened twice on one path at once (the class blocks on a per-path thread lock by design)"]
     probe_names = ["set_del_set_across_reopen", "clear_then_reopen", "clear_while_closed", "from_dict_aliasing",
-                   "refused_between_syncs", "op_while_closed", "ctx_exit", "create_existing", "open_missing", "dbm_session", "bystander_dict", "release", "from_dict_other_mapping", "ctx_raise"]
+                   "refused_between_syncs", "op_while_closed", "ctx_exit", "create_existing", "open_missing", "dbm_session", "bystander_dict", "release", "from_dict_other_mapping", "ctx_raise", "relative_path", "value_edited_in_place", "sync_or_close_in_another_directory"]
 
     def setup(self):
         from .. import world
@@ -61,7 +61,7 @@ class C20(P.Property):
             if rng.random() < 0.4:
                 start["src_type"] = rng.choice(["defaultdict", "OrderedDict", "subclass"])  # the source is some other kind of dict
         allops = ["set", "set", "setbad", "getitem", "get", "getd", "del", "del", "in", "len", "iter", "clear", "sync", "close",
-                  "reopen", "reopen", "create_existing", "open_missing", "ctx", "release"]
+                  "reopen", "reopen", "create_existing", "open_missing", "ctx", "release", "inplace", "away"]
         enabled = [o for o in allops if rng.random() < 0.75] or ["set", "reopen", "get"]
         bystander = rng.random() < 0.25  # a second, unrelated dictionary of the same class alive in the same process
         if bystander:
@@ -83,8 +83,15 @@ class C20(P.Property):
                 st.update(k=rng.randrange(len(KEYS) + 1))
             elif op == "ctx" and rng.random() < 0.5:
                 st.update(raise_in=rng.choice(["missing", "del", "bad"]))
+            elif op == "inplace":
+                st.update(k=rng.randrange(len(KEYS)))
+            elif op == "away":
+                st.update(do=rng.choice(["sync", "sync", "close"]))
             steps.append(st)
-        return {"property": "C20", "seed": seed, "cls": cls, "start": start, "steps": steps, "bystander": bystander}
+        plan = {"property": "C20", "seed": seed, "cls": cls, "start": start, "steps": steps, "bystander": bystander}
+        if rng.random() < 0.3:
+            plan["relpath"] = True  # the dictionary is named by a relative path (as the project's tests do) and the process changes its directory meanwhile
+        return plan
 
     def execute(self, plan):
         from .. import world
@@ -106,6 +113,14 @@ class C20(P.Property):
         os.makedirs(D)
         self.counter += 1
         path = os.path.join(D, f"d{self.counter}")
+        cwd0 = os.getcwd()
+        rel = bool(plan.get("relpath")) and full
+        if rel:
+            probe("relative_path")
+            os.makedirs(os.path.join(D, "away"))
+            os.chdir(D)
+            path = f"d{self.counter}"
+        ba_keys = set()  # keys whose stored value is a bytearray (a mutable byte string: it can be edited in place, like in a dict)
         b = bmodel = None
         if plan.get("bystander"):
             probe("bystander_dict")
@@ -193,6 +208,8 @@ class C20(P.Property):
                     if not closed and not check_all(si, "after an operation on a second, unrelated dictionary"):
                         break
                     continue
+                if closed and op in ("inplace", "away"):
+                    continue
                 if closed and op not in ("reopen", "ctx", "close", "create_existing", "open_missing", "release"):
                     probe("op_while_closed")
                     k = key(st.get("k", 0))
@@ -219,8 +236,38 @@ class C20(P.Property):
                         viol.append(V("C20.write", "MODEL_MISMATCH", f"step {si}: set refused: {o}", step=si))
                         break
                     model[k] = v
+                    (ba_keys.add if st.get("ba") else ba_keys.discard)(k)
                     mutated = True
                     hist.setdefault(st["k"], []).append("set")
+                elif op == "inplace":
+                    k = key(st["k"])
+                    if not full or k not in ba_keys or k not in model:
+                        continue
+                    # the stored value is a bytearray: editing it in place is a change of the dictionary's contents (as with a dict)
+                    probe("value_edited_in_place")
+                    o = outcome(lambda: d[k].extend(b"+"))
+                    obs.append((op, o[0]))
+                    if o[0] != "ok":
+                        viol.append(V("C20.read", "MODEL_MISMATCH", f"step {si}: d[k].extend on a stored bytearray gave {o!r:.60}", step=si))
+                        break
+                    model[k] = bytes(model[k]) + b"+"
+                    mutated = True
+                elif op == "away":
+                    if not rel:
+                        continue
+                    probe("sync_or_close_in_another_directory")
+                    os.chdir(os.path.join(D, "away"))
+                    try:
+                        o = outcome(lambda: d.sync() if st["do"] == "sync" else d.close())
+                    finally:
+                        os.chdir(D)
+                    obs.append((op, st["do"], o[0]))
+                    if o[0] != "ok":
+                        viol.append(V("C20.write", "MODEL_MISMATCH", f"step {si}: {st['do']} after the process changed its directory failed: {o}", step=si))
+                        break
+                    if st["do"] == "close":
+                        closed = True
+                        continue
                 elif op == "setbad":
                     k = key(st["k"])
                     o = outcome(lambda: d.__setitem__(k, mkbad(st["bad"])))
@@ -337,6 +384,7 @@ class C20(P.Property):
                                 break
                             d2[b"z"] = b"ctx"
                             model[b"z"] = b"ctx"
+                            ba_keys.discard(b"z")
                             mutated = True
                         closed = True
                         obs.append(("ctx-exit", "ok"))
@@ -443,6 +491,7 @@ class C20(P.Property):
                     b.close()
             except Exception:
                 pass
+            os.chdir(cwd0)
         for ki, h in hist.items():
             s = "".join(x[0] for x in h)
             # set, delete, (reopen), set of one key with a reopen somewhere in between
